@@ -8,7 +8,7 @@
    commands (r<ab> = revision of the election code, Raft.raftrev: a = fix_vote_term, b = fix_vote_match;
    optional, default r00 = rr_pinned):
      run  [r<ab>] <n> <ev>...   -> the state line after every event, joined by " ;; "
-     flags [r<ab>] <n> <ev>...  -> es=<0|1> agree=<0|1> lc=<0|1> dv=.. sv=.. ad=.. ot=.. av=..   (oracles / KnownClass on the model's run)
+     flags [r<ab>] <n> <ev>...  -> es=<0|1> agree=<0|1> lc=<0|1> dv=.. sv=.. ad=.. ot=.. av=.. nq=..   (oracles / KnownClass on the model's run; lc = leaders of HIGHER terms hold the leader-committed entries)
    events: (T i elapsed (j ...)) (D k elapsed) (X k) (U k) (A i d); numbers decimal *)
 open Model
 open Util
@@ -72,10 +72,12 @@ let handle (cmd : string) (args : sexp list) : string =
     let out = List.map (fun e -> c := step0 rv !c (ev_of_sexp e); str_cluster !c) evs in
     String.concat " ;; " out
   | "flags", A n :: evs ->
-    let c = run rv (n_of_s n) (List.map ev_of_sexp evs) in
+    let evl = List.map ev_of_sexp evs in
+    let c = run rv (n_of_s n) evl in
     let h = c.c_hist in
-    Printf.sprintf "es=%s agree=%s lc=%s dv=%s sv=%s ad=%s ot=%s av=%s"
-      (b (election_safety_b h)) (b (committed_agree_b c)) (b (leader_completeness_b h))
+    Printf.sprintf "es=%s agree=%s lc=%s dv=%s sv=%s ad=%s ot=%s av=%s nq=%s"
+      (b (election_safety_b h)) (b (committed_agree_b c)) (b (leader_completeness_up_b h))
       (b (double_vote_b h)) (b (stale_vote_b h)) (b (ack_diverged_b h)) (b (old_term_commit_b h)) (b (ack_below_vote_b h))
+      (b (commit_noquorum_b rv (n_of_s n) evl))
   | "init", [A n] -> str_cluster (init_default (n_of_s n))
   | _ -> failwith ("raft: bad command " ^ cmd)
